@@ -471,6 +471,27 @@ impl ToModel for u64 {
         MVal::Int(*self as i128)
     }
 }
+macro_rules! to_model_int {
+    ($($t:ty),*) => { $( impl ToModel for $t { fn to_model(&self) -> MVal { MVal::Int(*self as i128) } } )* };
+}
+to_model_int!(i8, i16, i64, i128, isize, u16, u32, u128, usize);
+macro_rules! to_model_nonzero {
+    ($($t:ty),*) => { $( impl ToModel for $t { fn to_model(&self) -> MVal { MVal::Int(self.get() as i128) } } )* };
+}
+to_model_nonzero!(
+    std::num::NonZeroU8,
+    std::num::NonZeroU32,
+    std::num::NonZeroU64,
+    std::num::NonZeroI8,
+    std::num::NonZeroI32,
+    std::num::NonZeroI64,
+    std::num::NonZeroUsize
+);
+impl ToModel for f32 {
+    fn to_model(&self) -> MVal {
+        MVal::F64((*self as f64).to_bits())
+    }
+}
 impl ToModel for f64 {
     fn to_model(&self) -> MVal {
         MVal::F64(self.to_bits())
